@@ -260,10 +260,7 @@ namespace {
         // nobody steals from, the awaited task can starve forever (known finding, sub-workload
         // kf_yield_starvation). The main workload polls only where another worker can steal.
         {
-            int64_t mode = ctx.params.get("rt.mode", -1);
-            // (min_tasks_to_steal_pending > 0 switches stealing off for short queues)
-            bool steals = g_policy != pk::POL_STATIC && g_policy != pk::POL_STATIC_PRIO && (mode == -1 || (mode & 0x4)) &&
-                g_workers >= 2 && ctx.params.get("rt.min_steal_pending", 0) == 0 && ctx.params.get("rt.min_steal_staged", 0) == 0;
+            bool steals = pk::steals(ctx);
             g_spin_waits = spin_waits && (steals || g_kf_starvation);
         }
         pk::start(ctx);
